@@ -73,6 +73,8 @@ pub enum Action {
     SwitchBranch { peer: usize, branch: usize },
     Connect { peer: usize },
     Disconnect { peer: usize },
+    /// the peer's view now stays `lag` blocks behind its branch tip
+    SetLag { peer: usize, lag: u64 },
     /// the peer stops answering for `ms`
     Stall { peer: usize, ms: u64 },
     /// drop the next `n` answers of the peer
